@@ -24,6 +24,11 @@
 (* Truncate means truncate-to-empty (what logrotate copytruncate and       *)
 (* `: > file` do).                                                         *)
 (*                                                                         *)
+(* Operations: line, frag (no newline), crlf, trunc, rotate (rename +      *)
+(* create empty), rotatew (rename + create with a first line inside - why  *)
+(* the code reads a new generation from its start), copytrunc, delete,     *)
+(* recreate, nop; finally stop (the tailer is cancelled).                  *)
+(*                                                                         *)
 (* Ideal layer: Expected(history) / the ghost pair exp, genBytes.          *)
 (* Deviations of the code (TRUE reproduces mtail at the pinned commit):    *)
 (*   DEV_FinishKeepsBuffer      reader.go Finish leaves lr.buf / lr.off    *)
@@ -91,10 +96,15 @@ VARIABLES
   \* ---- ideal (ghost) ----
   exp,        \* lines of finished generations
   genBytes,   \* bytes appended to the current generation since tailing of it began
-  \* ---- history (excluded from VIEW) ----
-  nops, pre, hist, obs, mark, wlive, ended,
-  nsym,       \* number of append operations so far (selects the payload symbol of the next one)
-  cand        \* scripted mode: indices of the scripts the history so far is a prefix of
+  \* ---- bookkeeping (in VIEW) ----
+  nops,       \* number of environment operations so far
+  pre,        \* initial state of the path: "absent" | "empty" | "line" | "frag"
+  nsym,       \* number of payload-carrying operations so far (selects the payload symbol of the next one)
+  cand,       \* scripted mode: indices of the scripts the history so far is a prefix of
+  \* ---- history, for case emission (excluded from VIEW) ----
+  hist,       \* the operations, with their bytes
+  obs,        \* the model's observation after each fully observed operation
+  mark, wlive, ended   \* per-step scratch for obs: delivered so far, goroutines parked after the wake, stream ended
 
 fsVars  == <<files, pathIno, nextIno>>
 stVars  == <<live, gen, fdIno, fiIno, offset, lrBuf, lrOff>>
